@@ -4,6 +4,18 @@
 set -e
 cd "$(dirname "$0")"
 mkdir -p evidence replays lean/AQ/Gen
+# every Python file of the machinery must at least compile (a broken search tool must never fail silently)
+PYTHONDONTWRITEBYTECODE=1 /venv/bin/python - <<'PYEOF'
+import glob, sys
+bad = []
+for f in sorted(glob.glob("checks/*.py") + glob.glob("harness/*.py") + glob.glob("tools/*.py")):
+    try:
+        compile(open(f).read(), f, "exec")
+    except SyntaxError as e:
+        bad.append(f"{f}: {e}")
+if bad:
+    print("\n".join(bad)); sys.exit(1)
+PYEOF
 tools/pregen.sh
 cd lean
 lake build
